@@ -14,8 +14,13 @@ ASSUMPTIONS = ["'influences' is established by perturbing the coordinate (up to 
 
 def run(ctx):
     rng = ctx.rng
-    ss = S.generate(ctx, 14 if ctx.quick else 100, 2 if ctx.quick else 4, max_e=6, max_loops=4, routings_per_graph=1, kinds=("uniform",))
+    ss = S.generate(ctx, 14 if ctx.quick else 100, 2 if ctx.quick else 4, max_e=6, max_loops=4, routings_per_graph=1, kinds=("uniform",),
+                    special=("disconnected", "vacuum") * (2 if ctx.quick else 6))
     for k, s in enumerate(ss):
+        n0 = len(s["case"]["edges"])
+        if k % 4 == 1 and n0 >= 2:
+            # an exactly zero xi coordinate (legal: the hypercube is [0,1)^n); a redraw would shift every later read
+            s["xs"] = list(s["xs"]); s["xs"][rng.choice(range(1, 2 * n0 - 2, 2))] = 0.0; s["kind"] = "zero_xi"
         if k % 4 == 3:
             # an exact zero (and an exact power of two) in a radial Box-Muller slot
             n = len(s["case"]["edges"]); dl = s["case"]["D"] * s["routing"]["L"]
@@ -77,6 +82,8 @@ def run(ctx):
     preqs, pinfo = [], []
     for si, (s, dim) in enumerate(zip(ss[: (8 if ctx.quick else 40)], dims)):
         a = s["impl"]
+        if s.get("kind") == "zero_xi":
+            continue    # degenerate base point: every later parameter is 0 * (...), so later coordinates cannot show their influence here
         if a.get("status") != "ok" or not SC.finite([a["k"], a["u"], a["v"], a["jac"]]) or b2f(a["v"]) <= 0:
             continue
         for i in range(dim + 3):
